@@ -127,9 +127,21 @@ def build_root():
 
 
 def prune_builds(keep=2):
-    """Drop build directories of older trees (disk is limited)."""
+    """Drop build directories of older trees and binaries of older monitor versions (disk is limited)."""
     if not os.path.isdir(BUILD):
         return
+    cur_root = os.path.join(BUILD, tree_hash())
+    for sub in ("bin", "gen", "obj"):
+        d = os.path.join(cur_root, sub)
+        if os.path.isdir(d):
+            now = time.time()
+            for f in os.listdir(d):
+                fp = os.path.join(d, f)
+                try:
+                    if now - os.path.getmtime(fp) > 5 * 3600:
+                        os.remove(fp)
+                except OSError:
+                    pass
     ds = [os.path.join(BUILD, x) for x in os.listdir(BUILD) if len(x) == 12 and os.path.isdir(os.path.join(BUILD, x))]
     ds.sort(key=lambda p: os.path.getmtime(p), reverse=True)
     cur = os.path.join(BUILD, tree_hash())
@@ -220,6 +232,10 @@ def compile_unit(u):
     out = os.path.join(bdir, "%s-%s-%s" % (u.name.replace("/", "_"), u.kind, key))
     u.binary = out
     if os.path.exists(out):
+        try:
+            os.utime(out, None)
+        except OSError:
+            pass
         return (u, True, "")
     cmd = flags + ["-I" + os.path.join(REPO, "include"), "-I" + os.path.join(REPO, "src", "example", "pegtl"),
                    "-I" + os.path.join(VERIF, "cpp"), "-Wno-unused-command-line-argument" if flags[0] == CLANG else "-w"]
